@@ -348,6 +348,7 @@ def _n_distinct(space, cfgs):
 # ------------------------------------------------------------------------------------------------ driver
 
 def build_world(cfg):
+    oracle = SuggestionOracle(cfg)      # harness side first: a catalogue error must never look like a violation
     s = make_scheduler(cfg)
     fam = KINDS[cfg["kind"]]["fam"]
     R = cfg["R"]
@@ -355,7 +356,7 @@ def build_world(cfg):
     Rw = cfg.get("script", R)
     spec = dict(W=cfg["W"], T=cfg["T"], R=Rw, table=metric_table(cfg["T"] + 1, R, cfg.get("tv", 0)), brackets=0,
                 max_resource_attr=MRA if fam in ("hb", "dehb") else None, fail_budget=cfg.get("F", 0))
-    return C06World(s, spec, [SuggestionOracle(cfg)])
+    return C06World(s, spec, [oracle])
 
 
 def ctx_of(cfg):
@@ -378,6 +379,7 @@ def task(cfg):
 
 
 def _task(cfg):
+    SuggestionOracle(cfg)
     try:
         w = build_world(cfg)
     except Exception as e:  # construction of a documented configuration failed
@@ -449,7 +451,7 @@ def configs(tier, seed):
     for kind in ("hb-stop-random", "hb-stop-bo-rand"):
         for space in ("fin6", "fin4"):
             for p in names(space, "none", "partial") if q else names(space, "none", "partial", "dups", "full"):
-                out.append(_mk(kind, space, p, seed=0, W=2, F=1, script=1, max_states=cap))
+                out.append(_mk(kind, space, p, seed=0, W=2, F=1, script=1, max_states=1500 if q else cap))
     for space in ("fin6", "fin4"):
         for p in names(space, "partial", "dups"):
             for sd in (0,) if q else (0, 1, 2):
@@ -549,6 +551,7 @@ def replay(data):
     cfg = data["cfg"]
     hist = [tuple(e) for e in data["history"]]
     ctx = ctx_of(cfg)
+    SuggestionOracle(cfg)
     try:
         w = build_world(cfg)
     except Exception as e:
